@@ -87,12 +87,14 @@ def check(ctx):
             d = r.defaults.get(n.id)
             dv = repo.fold(ci.mod, d) if d is not None else None
             # accepted when guarded: `if not <param>: raise` before the base initialiser, or default folds to 4 bytes
-            guarded = False
-            for s in r.init.body:
-                if isinstance(s, ast.If) and isinstance(s.test, ast.UnaryOp) and isinstance(s.test.op, ast.Not) \
-                        and isinstance(s.test.operand, ast.Name) and s.test.operand.id == n.id \
-                        and any(isinstance(x, ast.Raise) for x in s.body) and s.lineno < r.base_init.lineno:
-                    guarded = True
+            # the base initialiser runs only on the branch where the parameter is truthy, the other branch raises
+            from ..astutil import guards as _guards
+            g_ = _guards(r.init)
+            site = next((st_ for st_ in walk_no_nested(r.init) if isinstance(st_, ast.stmt) and st_ is not r.init
+                         and any(x is r.base_init for x in ast.walk(st_)) and not isinstance(st_, (ast.If, ast.With, ast.Try, ast.For, ast.While))), None)
+            truthy = lambda conds, tv: any(isinstance(t, ast.Name) and t.id == n.id and v is tv for t, v in conds)
+            guarded = site is not None and truthy(g_.get(id(site), []), True) and \
+                any(isinstance(x, ast.Raise) and truthy(g_.get(id(x), []), False) for x in walk_no_nested(r.init))
             ok = guarded or (isinstance(dv, bytes) and len(dv) == 4)
             ctx.decide(ok, "R-WIDTH/application_id", ci.qual, ci.where(r.base_init),
                        f"application_id is parameter `{n.id}` ({'guarded non-empty' if guarded else 'default 4 bytes'})",
